@@ -197,7 +197,20 @@ func runCtxFields(p *core.Prog) *core.Result {
 		return out
 	}
 	snap := lenOf(pushTF)
-	trunc := truncated(handleThrow, restoreStacks)
+	// the unwinders and the helpers they call statically (dropStacks etc.)
+	unwinders := []*ssa.Function{handleThrow, restoreStacks}
+	seenU := map[*ssa.Function]bool{handleThrow: true, restoreStacks: true}
+	for i := 0; i < len(unwinders) && i < 12; i++ {
+		core.AllInstrs(unwinders[i], func(in ssa.Instruction) {
+			if c, ok := in.(ssa.CallInstruction); ok {
+				if sc := core.StaticCallee(c); sc != nil && !seenU[sc] && sc.Signature.Recv() != nil && core.NamedOf(sc.Signature.Recv().Type()) == vmT {
+					seenU[sc] = true
+					unwinders = append(unwinders, sc)
+				}
+			}
+		})
+	}
+	trunc := truncated(unwinders...)
 	var auxNames []string
 	for n := range aux {
 		auxNames = append(auxNames, n)
